@@ -1,0 +1,10 @@
+//go:build verif
+
+// Verification contracts (property C07, addition; comment-only, read by /verif/govc).
+// A present but empty field (length 0) decodes to an empty, non-nil slice; only length -1 decodes to nil. The two are
+// different values everywhere downstream (SQL NULL vs empty bytes, tombstone vs empty value).
+
+package decoder
+
+//@ func readNullableBytes
+//@   ensures [C07.bytes_present_is_not_null] err == nil && length >= 0 ==> base(result0) != 0
